@@ -213,11 +213,16 @@ def St.init : St := { w := #[], pos := #[], unw := #[] }
 
 /-- body of the `for (instruction_index, instruction)` loop -/
 def step (wide : List Nat) (i : Insn) (s : St) : Except Fail St :=
-  if s.w.size > 65535 then .error .err
-  else
-    match encInsn (wide.contains s.pos.size) (fun t => (s.pos.push s.w.size)[t]?) s.w.size s.pos.size i with
-    | .error e => .error e
-    | .ok r => .ok { w := s.w ++ r.1, pos := s.pos.push s.w.size, unw := s.unw ++ r.2 }
+  match s with
+  | ⟨w, pos, unw⟩ =>
+    let p := w.size
+    let k := pos.size
+    if p > 65535 then .error .err
+    else
+      let pos' := pos.push p
+      match encInsn (wide.contains k) (fun t => pos'[t]?) p k i with
+      | .error e => .error e
+      | .ok r => .ok ⟨w ++ r.1, pos', unw ++ r.2⟩
 
 def pass (wide : List Nat) : List Insn → St → Except Fail St
   | [], s => .ok s
@@ -257,6 +262,8 @@ structure Result where
   code : Bytes
   /-- position of every instruction in the final attempt -/
   pos : Array Nat
+  /-- the `wide` set of the final attempt, newest first (one element per failed attempt) -/
+  wide : List Nat
   deriving Repr
 
 inductive Outcome where
@@ -279,7 +286,7 @@ def write (is : List Insn) : Nat → List Nat → Outcome
       | .retry idx => write is fuel (idx :: wide)
       | .done w =>
         if w.size = 0 ∨ w.size > 65535 then .err
-        else .ok { code := w.toList, pos := s.pos }
+        else .ok { code := w.toList, pos := s.pos, wide := wide }
 
 /-- `write_code`'s code array: at most one attempt per instruction plus one -/
 def writeCode (is : List Insn) : Outcome := write is (is.length + 1) []
@@ -287,7 +294,11 @@ def writeCode (is : List Insn) : Outcome := write is (is.length + 1) []
 /-- label table used for everything written after the code array -/
 def Result.label (r : Result) (t : Nat) : Option Nat := labelPos r.pos r.code.length t
 
-/-! ## tables written from the labels -/
+/-! ## tables written from the labels
+
+Each table is a list of rows of `u16` values; `rowsBytes` is what `write_slice` / the loops emit. -/
+
+def rowsBytes (rows : List (List Nat)) : Bytes := rows.flatMap (fun r => r.flatMap u16b)
 
 structure Exc where
   start : Nat
@@ -297,19 +308,20 @@ structure Exc where
   catchIdx : Nat
   deriving Repr
 
-def excBytes (lp : Nat → Option Nat) : List Exc → Option Bytes
+/-- exception table rows `(start_pc, end_pc, handler_pc, catch_type)`; `none` = a label without bytecode offset -/
+def excRows (lp : Nat → Option Nat) : List Exc → Option (List (List Nat))
   | [] => some []
   | e :: es =>
-    match lp e.start, lp e.stop, lp e.handler, excBytes lp es with
-    | some a, some b, some c, some rest => some (u16b a ++ u16b b ++ u16b c ++ u16b e.catchIdx ++ rest)
+    match lp e.start, lp e.stop, lp e.handler, excRows lp es with
+    | some a, some b, some c, some rest => some ([a, b, c, e.catchIdx] :: rest)
     | _, _, _, _ => none
 
-/-- `LineNumberTable` entries `(start label, line)` -/
-def lineBytes (lp : Nat → Option Nat) : List (Nat × Nat) → Option Bytes
+/-- `LineNumberTable` rows `(start_pc, line_number)` from entries `(start label, line)` -/
+def lineRows (lp : Nat → Option Nat) : List (Nat × Nat) → Option (List (List Nat))
   | [] => some []
   | e :: es =>
-    match lp e.1, lineBytes lp es with
-    | some a, some rest => some (u16b a ++ u16b e.2 ++ rest)
+    match lp e.1, lineRows lp es with
+    | some a, some rest => some ([a, e.2] :: rest)
     | _, _ => none
 
 structure Lv where
@@ -329,14 +341,15 @@ def range (lp : Nat → Option Nat) (a b : Nat) : Except Fail (Nat × Nat) :=
     | none => .error .err
     | some e => if e < s then .error .panic else .ok (s, e - s)
 
-def lvBytes (lp : Nat → Option Nat) : List Lv → Except Fail Bytes
+/-- `LocalVariable(Type)Table` rows `(start_pc, length, name_index, descriptor_index, index)` -/
+def lvRows (lp : Nat → Option Nat) : List Lv → Except Fail (List (List Nat))
   | [] => .ok []
   | v :: vs =>
     match range lp v.start v.stop with
     | .error e => .error e
     | .ok r =>
-      match lvBytes lp vs with
+      match lvRows lp vs with
       | .error e => .error e
-      | .ok rest => .ok (u16b r.1 ++ u16b r.2 ++ u16b v.nameIdx ++ u16b v.descIdx ++ u16b v.index ++ rest)
+      | .ok rest => .ok ([r.1, r.2, v.nameIdx, v.descIdx, v.index] :: rest)
 
 end CodeWrite
